@@ -188,6 +188,13 @@ def build(F):
                    enums=[dict(name='Tier', values=['TIER_UNSPECIFIED', 'GOLD'])])
         files.append(res)
         book_fields += [dict(name='author', type='Author'), dict(name='tier', type='enum:Tier')]
+    if 'f_subpackage' in F:
+        files.append(dict(name=f'{PDIR}/admin/admin_types.proto', package=PKG + '.admin',
+                          messages=[dict(name='AdminThing', fields=[dict(name='name'), dict(name='level', type='int32')])]))
+    if 'f_upper_file' in F:
+        files.append(dict(name=f'{PDIR}/MyTypes.proto', package=PKG,
+                          messages=[dict(name='Cover', fields=[dict(name='color')])]))
+        book_fields.append(dict(name='cover', type='Cover'))
     files.append(main)
     if 's_two_services' in F:
         amsgs = [dict(name='AuditRequest', fields=[dict(name='name'), dict(name='book', type='Book')]),
